@@ -40,18 +40,30 @@ def absolute_tracks(mid):
 def tempo_map(abs_tracks, default_mpq):
     """Tick-sorted list of (tick, mpq) of every set_tempo in every track.
 
-    ``same_tick`` lists ticks that carry more than one set_tempo (order then
-    ambiguous between tracks; outside the domain).
+    ``same_tick`` lists ticks that carry more than one set_tempo (see
+    :func:`tempo_same_tick_in_different_tracks` for the ambiguous ones).
     """
     evs = []
     for ti, evs_t in enumerate(abs_tracks):
         for tick, pos, msg in evs_t:
             if msg.is_meta and msg.type == "set_tempo":
                 evs.append((tick, ti, pos, int(msg.tempo)))
-    evs.sort()
+    # (tick, track, position): on one tick of one track the later message is in force
+    evs.sort(key=lambda e: (e[0], e[1], e[2]))
     ticks = [e[0] for e in evs]
     same_tick = sorted(set(t for t in ticks if ticks.count(t) > 1))
     return [(e[0], e[3]) for e in evs], same_tick
+
+
+def tempo_same_tick_in_different_tracks(abs_tracks):
+    """Ticks that carry set_tempo events in more than one track (their order is a matter of
+    convention; outside the domain).  Several set_tempo on one tick of ONE track are ordered."""
+    where = {}
+    for ti, evs_t in enumerate(abs_tracks):
+        for tick, pos, msg in evs_t:
+            if msg.is_meta and msg.type == "set_tempo":
+                where.setdefault(tick, set()).add(ti)
+    return sorted(t for t, s in where.items() if len(s) > 1)
 
 
 def make_seconds(tmap, default_mpq, ppq):
@@ -149,7 +161,14 @@ def interpret(mid, merge=False, default_mpq=500000):
         for key, (tick, vel) in sorted(sounding.items()):
             tr["problems"].append(("on-never-closed", tick, key))
         tracks.append(tr)
-    return dict(ppq=ppq, tempo_map=tmap, tempo_same_tick=same, seconds=seconds, tracks=tracks)
+    return dict(
+        ppq=ppq,
+        tempo_map=tmap,
+        tempo_same_tick=same,
+        tempo_same_tick_cross_track=tempo_same_tick_in_different_tracks(abs_tracks),
+        seconds=seconds,
+        tracks=tracks,
+    )
 
 
 FIFTHS_LINE = "FCGDAEB"
